@@ -37,6 +37,17 @@ func VC19_DatabaseReadOnly() {
 	vsym.Assert(s1 == s2, "SigDataExists is repeatable")
 	vsym.Assert(l1 == l2, "Exists is repeatable")
 	vsym.AssertReadOnly("database operations")
+	vsym.Concurrent(
+		func() { db.Bytes() },
+		func() { var m bytes.Buffer; db.Marshal(&m) },
+		func() { db.BytesExists(t, owner, data) },
+		func() { db.SigDataExists(t, &SignatureData{Owner: owner, Data: data}) },
+		func() {
+			if len(*db) > 0 {
+				db.Exists(t, (*db)[0])
+			}
+		},
+	)
 	vsym.Reach("end")
 }
 
@@ -60,6 +71,7 @@ func VC19_SignedUpdateReadOnly() {
 	vsym.AssertBytesEq(m1.Bytes(), content, "Marshal writes the content")
 	vsym.AssertBytesEq(m2.Bytes(), content, "Marshal is repeatable")
 	vsym.AssertReadOnly("signed-update value operations")
+	vsym.Concurrent(func() { e.Bytes() }, func() { var m bytes.Buffer; e.Marshal(&m) })
 	vsym.Reach("end")
 }
 
@@ -77,5 +89,6 @@ func VC19_DescriptorReadOnly() {
 	d.Marshal(&m2)
 	vsym.AssertBytesEq(m2.Bytes(), m1.Bytes(), "descriptor Marshal is repeatable")
 	vsym.AssertReadOnly("descriptor operations")
+	vsym.Concurrent(func() { var m bytes.Buffer; d.Marshal(&m) })
 	vsym.Reach("end")
 }
